@@ -66,6 +66,9 @@ func (c04) Gen(rng *rand.Rand, tier string, k int) *Case {
 		}
 		c.Lens[0] = n
 	}
+	if rng.Intn(10) == 0 {
+		c.Variant = 3 // every non-period parameter zero: causality must not depend on them
+	}
 	c.Mode = fmt.Sprintf("%d", rng.Int63n(1<<30)) // seed of cut points and suffixes
 	return c
 }
